@@ -472,11 +472,15 @@ theorem take_append_cases {α : Type} (A B : List α) :
       · left; exact ⟨j + 1, by simp [hj]⟩
       · right; exact ⟨j, by simp [hj]⟩
 
+theorem purgeDeletes_eq (s : Index) (i : Nat) : purgeDeletes s i = (getNode s.nodes i).isNone := by
+  simp [purgeDeletes, Gen.HnswOrder.gen_purge_rule]
+
 theorem purge_phase2 (s : Index) (hlive : ∀ i ∈ s.ids, (getNode s.nodes i).isSome = true) :
     ∀ w ∈ purgeWrites s, Phase2Ok s w := by
   intro w hw
   simp only [purgeWrites, List.mem_map, List.mem_filter] at hw
   obtain ⟨i, ⟨_, hnone⟩, rfl⟩ := hw
+  rw [purgeDeletes_eq] at hnone
   simp only [Phase2Ok]
   intro hi
   have := hlive i hi
